@@ -72,6 +72,11 @@ type scen struct {
 	// eth (rinkeby mode)
 	ethHead *gethtypes.Header
 	props   uint64
+	// twin of the world's call-target ERC-20 on chain 0 (same name, symbol, decimals): UpdateTokenPairERC20 can succeed
+	twin common.Address
+	// the BSC client state the simulated BSC client was created with (ToggleClient installs a copy elsewhere)
+	bscCS   *bsctypes.ClientState
+	bscCons *bsctypes.ConsensusState
 }
 
 func (s *scen) kind(k string) { s.kinds[k]++ }
@@ -132,7 +137,7 @@ func runScenario(ch Chooser, steps int, prof nodeProfile) ([]string, map[string]
 	}
 	s.w = bridge.NewWorldOpts(2, seed, bridge.WorldOpts{
 		GenesisMutator: mut,
-		ExtraCoins:     sdk.NewCoins(sdk.NewInt64Coin("acoin", 1_000_000), sdk.NewInt64Coin("bcoin", 1_000_000)),
+		ExtraCoins:     sdk.NewCoins(sdk.NewInt64Coin("acoin", 1_000_000), sdk.NewInt64Coin("bcoin", 1_000_000), sdk.NewInt64Coin("ccoin", 1_000_000)),
 		OnChain: func(c *kit.Chain) {
 			c.Trace = func(l string) { trace = append(trace, l) }
 			prof.apply(c)
@@ -146,11 +151,21 @@ func runScenario(ch Chooser, steps int, prof nodeProfile) ([]string, map[string]
 	kit.Must(c0.App.BankKeeper.SendCoinsFromModuleToModule(c0.Ctx(), aggregatetypes.ModuleName, rvestingtypes.ModuleName, pool), "fund pool")
 	s.setupBSC()
 	s.setupETH()
+	s.twin = c0.DeployERC20("target", "TGT", 18)
 	// a coin pair and an ERC-20 pair registered through the keeper (further ones go through governance)
 	meta := banktypes.Metadata{Description: "a", Base: "acoin", Display: "acoin", Name: "acoin", Symbol: "ACOIN",
 		DenomUnits: []*banktypes.DenomUnit{{Denom: "acoin", Exponent: 0}}}
 	_, err := c0.App.AggregateKeeper.RegisterCoin(c0.Ctx(), meta)
 	kit.Must(err, "register acoin")
+	// half of the scripts start from a state in which earlier governance already created an extra TSS client and registered
+	// the call-target ERC-20 as a pair (so that ToggleClient and UpdateTokenPairERC20 proposals can pass their dry-run)
+	if ch.Intn("prestate", 2) == 1 {
+		pre := &tsstypes.ClientState{TssAddress: w.TSS.Acc.String(), Pubkey: []byte("k"), PartPubkeys: [][]byte{[]byte("p")}, Threshold: 1}
+		kit.Must(c0.App.XIBCKeeper.ClientKeeper.CreateClient(c0.Ctx(), "tss-pre", pre, &tsstypes.ConsensusState{}), "create tss-pre")
+		_, err := c0.App.AggregateKeeper.RegisterERC20(c0.Ctx(), w.Target[0])
+		kit.Must(err, "register target")
+		s.kind("prestate")
+	}
 	w.Tick()
 	actions := []func(){s.send, s.send, s.relayAll, s.relayAll, s.tick, s.convertCoin, s.convertERC20, s.stakingCall, s.govVoteCall, s.bscUpdate, s.bscUpdate,
 		s.ethUpdate, s.tssInject, s.tssUpdate, s.submitProposal, s.submitProposal, s.voteProposals, s.bankSend}
@@ -256,7 +271,7 @@ func (s *scen) pair(denom string) (aggregatetypes.TokenPair, bool) {
 func (s *scen) convertCoin() {
 	c0 := s.w.Chains[0]
 	u := s.w.Users[s.ch.Intn("user", 2)]
-	denom := []string{"acoin", "bcoin"}[s.ch.Intn("denom", 2)]
+	denom := []string{"acoin", "bcoin", "ccoin"}[s.ch.Intn("denom", 3)]
 	msg := aggregatetypes.NewMsgConvertCoin(sdk.NewInt64Coin(denom, int64(1+s.ch.Intn("amount", 50))), s.w.Users[s.ch.Intn("receiver", 2)].Addr, u.Acc)
 	c0.Deliver(u, msg)
 	s.kind("MsgConvertCoin")
@@ -265,7 +280,7 @@ func (s *scen) convertCoin() {
 func (s *scen) convertERC20() {
 	c0 := s.w.Chains[0]
 	u := s.w.Users[s.ch.Intn("user", 2)]
-	denom := []string{"acoin", "bcoin"}[s.ch.Intn("denom", 2)]
+	denom := []string{"acoin", "bcoin", "ccoin"}[s.ch.Intn("denom", 3)]
 	p, ok := s.pair(denom)
 	if !ok {
 		return
@@ -335,6 +350,7 @@ func (s *scen) setupBSC() {
 		ContractAddress: common.BytesToAddress([]byte("xibc")).Bytes(), TrustingPeriod: 1 << 40}
 	cons := &bsctypes.ConsensusState{Timestamp: gh.Time, Height: cs.Header.Height, Root: gh.Root.Bytes()}
 	kit.Must(c0.App.XIBCKeeper.ClientKeeper.CreateClient(c0.Ctx(), bscName, cs, cons), "create bsc client")
+	s.bscCS, s.bscCons = cs, cons
 	s.bscHead = gh
 	for _, r := range s.w.Rels {
 		// relayers keep their Tendermint registrations and gain the simulated EVM chains
@@ -439,7 +455,27 @@ func (s *scen) submitProposal() {
 	c0 := w.Chains[0]
 	var content govtypes.Content
 	var name string
-	switch s.ch.Intn("proposalKind", 10) {
+	switch s.ch.Intn("proposalKind", 14) {
+	case 10:
+		// upgrade of the TSS client (same TSS account, new key material)
+		cs := &tsstypes.ClientState{TssAddress: w.TSS.Acc.String(), Pubkey: []byte(fmt.Sprintf("k%d", s.props)), PartPubkeys: [][]byte{[]byte("p"), []byte("q")}, Threshold: 2}
+		uc, err := clienttypes.NewUpgradeClientProposal("t", "d", bridge.TSSName, cs, &tsstypes.ConsensusState{})
+		kit.Must(err, "upgrade client proposal")
+		content, name = uc, "UpgradeClient(tss)"
+	case 11:
+		// toggle of a governance-created extra TSS client into a BSC client (3 validators: map-backed snapshot)
+		tc, err := clienttypes.NewToggleClientProposal("t", "d", []string{"tss-extra-0", "tss-pre"}[s.ch.Intn("toggleTarget", 2)], s.bscCS, s.bscCons)
+		kit.Must(err, "toggle client proposal")
+		content, name = tc, "ToggleClient(tss->bsc)"
+	case 12:
+		meta := banktypes.Metadata{Description: "c", Base: "ccoin", Display: "ccoin", Name: "ccoin", Symbol: "CCOIN", DenomUnits: []*banktypes.DenomUnit{{Denom: "ccoin", Exponent: 0}}}
+		contract := "0x00000000000000000000000000000000000000cc"
+		if p, ok := s.pair("acoin"); ok {
+			contract = p.ERC20Address
+		}
+		content, name = aggregatetypes.NewAddCoinProposal("t", "d", meta, contract), "AddCoin"
+	case 13:
+		content, name = aggregatetypes.NewUpdateTokenPairERC20Proposal("t", "d", w.Target[0].Hex(), s.twin.Hex()), "UpdateTokenPairERC20"
 	case 8, 9:
 		// an ALREADY registered relayer is registered again: same chains, but its address on the other Tendermint chain moves
 		// (acknowledgements naming the old address then stop finding a fee receiver)
